@@ -42,6 +42,30 @@ fn same_value(d: Duration) -> Vec<Duration> {
     if d != Duration::MIN && d != Duration::MAX {
         v.push(-(-d));
     }
+    // the compound-assignment operators, reaching the value from either side
+    let (lo, hi) = (Duration::MIN.total_nanoseconds(), Duration::MAX.total_nanoseconds());
+    for r in [1_i128, 1_000, 1_577_880_000_000_000_000] {
+        if t - r >= lo {
+            let mut z = Duration::from_total_nanoseconds(t - r);
+            z += Duration::from_total_nanoseconds(r);
+            v.push(z);
+        }
+        if t + r <= hi {
+            let mut z = Duration::from_total_nanoseconds(t + r);
+            z -= Duration::from_total_nanoseconds(r);
+            v.push(z);
+        }
+    }
+    if t - 1 >= lo {
+        let mut z = Duration::from_total_nanoseconds(t - 1);
+        z += Unit::Nanosecond;
+        v.push(z);
+    }
+    if t + 1 <= hi {
+        let mut z = Duration::from_total_nanoseconds(t + 1);
+        z -= Unit::Nanosecond;
+        v.push(z);
+    }
     v
 }
 
